@@ -75,6 +75,9 @@ pub fn raw_expressions() -> Vec<(&'static str, &'static str, &'static str, i32, 
         ("mkdir() { echo \"mkdir called: $*\"; }; grep() { echo mock grep; }; echo hi", "hi\n", "", 0, ""),
         ("echo() { printf 'E:%s\\n' \"$*\"; }; echo hi", "E:hi\n", "", 0, ""),
         ("set -x; echo hi", "hi\n", "+ echo hi\n", 0, "shell-tracing"),
+        // keyword mode and a function named like the command scrut sets the environment with
+        ("export() { echo my-export; }; echo hi", "hi\n", "", 0, ""),
+        ("set -k; echo hi", "hi\n", "", 0, ""),
         // leaves a working directory behind that does not exist any more: restoring it must not talk on the next test's stderr
         ("mkdir gone && cd gone && rmdir ../gone && echo left", "left\n", "", 0, ""),
     ]
@@ -404,6 +407,9 @@ impl Engine for VcIo {
                 res.nontrivial.push(("C13", key));
                 let (expr, want_out, want_err, want_code, tag) = raw_expressions()[*idx];
                 let cfg = if *exec == Exec::Script { TestCaseConfig { output_stream: Some(OutputStreamControl::Stdout), keep_crlf: Some(true), ..TestCaseConfig::default_cram() } } else { TestCaseConfig::default_markdown() };
+                // (with a configured environment variable, as every run through the command line has: scrut sets it for each test case)
+                let mut cfg = cfg;
+                cfg.environment.insert("VERIF_CONFIGURED".into(), "a value".into());
                 let mk = |e: &str| TestCase { title: "t".into(), shell_expression: e.into(), expectations: vec![], exit_code: None, line_number: 1, config: cfg.clone() };
                 // (the third test case uses builtins explicitly: the second may have defined functions with any name)
                 let tcs = vec![mk("(exit 4)"), mk(expr), mk("set +x; builtin echo next")];
